@@ -22,6 +22,9 @@ func init() {
 	register(&Prop{ID: "C07", Gen: genC07, Check: checkC07, HangIsViolation: true})
 }
 
+// anyErrorCode: the request must be refused, the statement names no code.
+const anyErrorCode = 0xffff
+
 type c07Info struct {
 	class     string
 	proto     Proto // protocol the valid base request used
@@ -130,7 +133,27 @@ func genC07(t *core.Tape, tier string) *Scenario {
 	case 0:
 		info.class = "valid"
 	case 1: // adversarial with a documented outcome
-		switch t.Choose(9, "adv") {
+		switch t.Choose(10, "adv") {
+		case 9:
+			// a unary or server-streaming request is exactly one message: more
+			// bytes after it - a second message, stray bytes, the beginning of
+			// another envelope - are malformed framing
+			if !(p.Kind == KUnary || p.Kind == KServer) || !streaming || nreq == 0 {
+				info.class = "valid"
+				break
+			}
+			info.class, info.wantCode = "bytes-after-single-message", anyErrorCode
+			body = append([]byte(nil), body...)
+			switch t.Choose(4, "after.what") {
+			case 0:
+				body = ref.AppendEnvelope(body, 0, ref.EncodeBytesValue(codec, []byte("second")))
+			case 1:
+				body = append(body, t.Bytes(1+t.Choose(4, "after.n"), 2, "after")...)
+			case 2:
+				body = append(body, 0, 0, 0, 0, 9, 'x', 'y')
+			default:
+				body = ref.AppendEnvelope(body, 0, []byte{0xff, 0xff, 0xff})
+			}
 		case 0:
 			info.class, info.wantCode, info.noEntry = "unknown-compression", 12, true
 			hdr[encHeader] = []string{[]string{"br", "zstd", "x", "GZIP", "deflate"}[t.Choose(5, "alg")]}
@@ -426,6 +449,8 @@ func checkC07(w *World, st core.Status, r *RunResult) []Violation {
 			switch {
 			case resp.Err == nil:
 				add("rejected-request-succeeded", fmt.Sprintf("class %s answered with success", info.class))
+			case info.wantCode == anyErrorCode:
+				// any error will do; success will not
 			case info.class == "oversize":
 				if resp.Err.Code != 3 && resp.Err.Code != 8 {
 					add("wrong-code", fmt.Sprintf("oversize message answered with code %d (%s), want invalid_argument or resource_exhausted", resp.Err.Code, resp.Err.Message))
